@@ -143,9 +143,13 @@ pub proof fn lemma_none(hs: Seq<Header>, name: Seq<char>)
 }
 
 pub open spec fn f_te(hs: Seq<Header>) -> bool { has_hdr(hs, "Transfer-Encoding"@) }
-/// declared length: Transfer-Encoding takes precedence over any Content-Length
+/// declared length: Transfer-Encoding takes precedence over any Content-Length; the value must be
+/// "a plain decimal number the server can represent" (property C16) -- anything else is f_cl_bad
+pub open spec fn f_cl_bad(hs: Seq<Header>) -> bool {
+    !f_te(hs) && has_hdr(hs, "Content-Length"@) && plain_decimal(first_value(hs, "Content-Length"@)) is None
+}
 pub open spec fn f_cl(hs: Seq<Header>) -> Option<usize> {
-    if f_te(hs) || !has_hdr(hs, "Content-Length"@) { None } else { parse_usize(first_value(hs, "Content-Length"@)) }
+    if f_te(hs) || !has_hdr(hs, "Content-Length"@) { None } else { plain_decimal(first_value(hs, "Content-Length"@)) }
 }
 pub open spec fn f_expect_ok(hs: Seq<Header>) -> bool {
     !has_hdr(hs, "Expect"@) || eq_ic(first_value(hs, "Expect"@), "100-continue"@)
@@ -188,10 +192,12 @@ impl Request {
         match res {
             // C10/C18: an Expect value other than 100-continue (any letter case) is refused, nothing else is
             Err(RequestCreationError::ExpectationFailed) => !f_expect_ok(headers@),
+            // O-CL-STRICT (C16): a Content-Length that is not a plain decimal number is refused, never interpreted or ignored
+            Err(RequestCreationError::InvalidContentLength) => f_cl_bad(headers@),
             // C15: the only I/O failure is a buffered small body that the source cannot supply in full
-            Err(RequestCreationError::CreationIoError(e)) => f_expect_ok(headers@) && f_buffered(headers@),
+            Err(RequestCreationError::CreationIoError(e)) => f_expect_ok(headers@) && !f_cl_bad(headers@) && f_buffered(headers@),
             Ok(rq) => {
-                &&& f_expect_ok(headers@)
+                &&& f_expect_ok(headers@) && !f_cl_bad(headers@)
                 // O-FRAMING (C03): the readable body is exactly what the framing designates ...
                 &&& rq.has_body_reader() && rq.body() == f_body(headers@, source_data.stream())
                 // ... the declared length is reported exactly when Content-Length decided
@@ -217,12 +223,31 @@ impl Request {
         }
         assert(f_te(headers@) == (transfer_encoding is Some));
     }
+//@before? 1 return Err(RequestCreationError::InvalidContentLength)
+                proof {
+                    // sign-prefixed value: not a plain decimal number
+                    let name = "Content-Length"@;
+                    let i = choose|i: int| 0 <= i < headers@.len() && hdr_is(#[trigger] headers@[i], name) && headers@[i].value@ == v@
+                        && forall|j: int| 0 <= j < i ==> !hdr_is(#[trigger] headers@[j], name);
+                    lemma_first(headers@, name, i);
+                    assert(!is_digit('+'));
+                }
+//@before? 2 return Err(RequestCreationError::InvalidContentLength)
+                proof {
+                    // anything usize::from_str refuses (empty, non-digit, mixed, list, overflowing)
+                    let name = "Content-Length"@;
+                    let i = choose|i: int| 0 <= i < headers@.len() && hdr_is(#[trigger] headers@[i], name) && headers@[i].value@ == v@
+                        && forall|j: int| 0 <= j < i ==> !hdr_is(#[trigger] headers@[j], name);
+                    lemma_first(headers@, name, i);
+                }
 //@after 1 let content_length
     proof {
         let name = "Content-Length"@;
         if transfer_encoding is None {
             if exists|i: int| 0 <= i < headers@.len() && hdr_is(#[trigger] headers@[i], name) {
-                let i = choose|i: int| 0 <= i < headers@.len() && hdr_is(#[trigger] headers@[i], name) && content_length == parse_usize(headers@[i].value@)
+                let i = choose|i: int| 0 <= i < headers@.len() && hdr_is(#[trigger] headers@[i], name)
+                    && content_length == parse_usize(headers@[i].value@) && content_length is Some
+                    && !(headers@[i].value@.len() > 0 && headers@[i].value@[0] == '+')
                     && forall|j: int| 0 <= j < i ==> !hdr_is(#[trigger] headers@[j], name);
                 lemma_first(headers@, name, i);
             } else {
@@ -230,7 +255,7 @@ impl Request {
                 lemma_none(headers@, name);
             }
         }
-        assert(content_length == f_cl(headers@));
+        assert(content_length == f_cl(headers@) && !f_cl_bad(headers@));
     }
 //@before 1 return Err ( RequestCreationError :: ExpectationFailed )
                 proof {
@@ -274,14 +299,14 @@ impl Request {
 //@closure 1 |h: &&Header| -> (b: bool) ensures b == hdr_is(**h, "Transfer-Encoding"@)
 //@closure 2 |h: &Header| -> (o: AsciiString) ensures o == h.value
 //@closure 3 |h: &&Header| -> (b: bool) ensures b == hdr_is(**h, "Content-Length"@)
-//@closure 4 |h: &Header| -> (o: Option<usize>) ensures o == parse_usize(h.value@)
+//@closure 4 |h: &Header| -> (o: &str) ensures o@ == h.value@
 //@closure 5 |h: &&Header| -> (b: bool) ensures b == hdr_is(**h, "Expect"@)
 //@closure 6 |h: &Header| -> (o: &str) ensures o@ == h.value@
 //@closure 7 |h: &&Header| -> (b: bool) ensures b == hdr_is(**h, "Connection"@)
 //@closure 8 |h: &Header| -> (o: &str) ensures o@ == h.value@
 //@entry
     let ghost src0 = source_data.stream();
-    broadcast use axiom_find_post, axiom_contains_str, lemma_as_ref_index, lemma_as_ref_index_fwd, axiom_spec_from;
+    broadcast use axiom_find_post, axiom_contains_str, lemma_as_ref_index, lemma_as_ref_index_fwd, axiom_spec_from, axiom_starts_with_char;
 //@loop 1
                 invariant
                     offset <= content_length, buffer@.len() == content_length, content_length <= 1024,
@@ -295,7 +320,7 @@ impl Request {
                 broadcast use axiom_spec_from;
                 let ghost buf0 = buffer@;
                 let ghost off0 = offset as int;
-//@before 1 offset + = read
+//@before? 1 offset += read
                 proof {
                     // Seq extensionality hints: prefix kept by the disjoint sub-slice, new bytes = next bytes of the stream
                     assert(buffer@.subrange(0, off0) =~= buf0.subrange(0, off0));
